@@ -21,7 +21,12 @@ cause from the place of the first difference (root|layer|scenario|step, what dif
   board-order       the difference is in or below a scenario/step and the source declares something after a
                     scenarios/steps block in the same map (formatter moves boards last; design-level),
   board-order-glob  a declaration follows a board block and the source uses globs (lazy glob application),
+  board-order-flat  a flat key into a board (`steps.b.y`) follows a board block: the block is moved behind it, which
+                    changes the order of the boards (and what a step inherits),
   empty-board-map, quoted-board-key, key-case, backslash-crlf   (see props/C04/findings.json),
+  declaration-lost / declaration-gained   the formatted text does not hold the same declarations (map keys with their
+                    context, case-folded) as the source, apart from the empty board keys Format drops on purpose:
+                    never a listed finding, always reported,
   unexplained:<where>/<what>   none of the above: always reported.
 `+model` is appended when the abstract evaluator disagrees with the real compile on that case.
 Model-vs-impl: on the evaluator sub-fragment (FmtSem) the abstract evaluator's board/object tree is compared with g1.
@@ -197,19 +202,26 @@ def handleC04 (j : Json) : Except String Verdict := do
   let kwAny := hasFeat o "sf" "kwcase:value" || hasFeat o "sf" "kwcase:key-segment" || hasFeat o "sf" "kwcase:import"
   -- root cause named from the place of the first difference and the source features (see the header)
   let causeOf (whereK what : String) (under : Bool) : String :=
-    if what == "value-case" && kwAny && !hasFeat o "sf" "kwcase:key-segment" then "value-case"
+    if hasFeat o "sf" "text:backslash-crlf" then "backslash-crlf"
+    else if hasFeat o "sf" "decl:lost" then "declaration-lost"
+    else if hasFeat o "sf" "decl:gained" then "declaration-gained"
+    else if hasFeat o "sf" "boards:flat-key-after-block" && (what == "board-name" || what == "board-count" || whereK != "root") then "board-order-flat"
+    else if what == "value-case" && kwAny && !hasFeat o "sf" "kwcase:key-segment" then "value-case"
     else if (whereK == "scenario" || whereK == "step" || under) && hasFeat o "sf" "boards:decl-after-scenarios-or-steps" then "board-order"
     else if (hasFeat o "sf" "boards:decl-after-layers" || hasFeat o "sf" "boards:decl-after-scenarios-or-steps")
         && hasFeat o "sf" "glob:any" then "board-order-glob"
     else if whereK != "root" && hasFeat o "sf" "boards:empty-entry" then "empty-board-map"
     else if hasFeat o "sf" "boards:quoted-key" then "quoted-board-key"
     else if hasFeat o "sf" "kwcase:key-segment" then "key-case"
-    else if hasFeat o "sf" "text:backslash-crlf" then "backslash-crlf"
     else s!"unexplained:{whereK}/{what}"
   match getStr o "c2err" with
   | .ok e =>
     let cause :=
-      if hasFeat o "sf" "boards:decl-after-scenarios-or-steps" then "board-order"
+      if hasFeat o "sf" "text:backslash-crlf" then "backslash-crlf"
+      else if hasFeat o "sf" "decl:lost" then "declaration-lost"
+      else if hasFeat o "sf" "decl:gained" then "declaration-gained"
+      else if hasFeat o "sf" "boards:flat-key-after-block" then "board-order-flat"
+      else if hasFeat o "sf" "boards:decl-after-scenarios-or-steps" then "board-order"
       else if hasFeat o "sf" "boards:quoted-key" then "quoted-board-key"
       else if hasFeat o "sf" "kwcase:key-segment" then "key-case"
       else if hasFeat o "sf" "boards:empty-entry" then "empty-board-map"
